@@ -88,7 +88,7 @@ BMPString_constraint(const asn_TYPE_descriptor_t *td, const void *sptr,
  * BMPString specific contents printer.
  */
 static ssize_t
-BMPString__dump(const BMPString_t *st,
+BMPString__dump(const BMPString_t *st, int xml_escape,
 		asn_app_consume_bytes_f *cb, void *app_key) {
 	char scratch[128];			/* Scratchpad buffer */
 	char *p = scratch;
@@ -100,13 +100,20 @@ BMPString__dump(const BMPString_t *st,
 	end = (st->buf + st->size);
 	for(end--; ch < end; ch += 2) {
 		uint16_t wc = (ch[0] << 8) | ch[1];	/* 2 bytes */
-		if(sizeof(scratch) - (p - scratch) < 3) {
+		if(sizeof(scratch) - (p - scratch) < 6) {
 			wrote += p - scratch;
 			if(cb(scratch, p - scratch, app_key) < 0)
 				return -1;
 			p = scratch;
 		}
-		if(wc < 0x80) {
+		if(xml_escape && (wc == 0x3c || wc == 0x3e || wc == 0x26)) {
+			/* X.693 #8.3.2: "<", ">" and "&" can not appear as is */
+			const char *ent = (wc == 0x3c) ? "&lt;"
+					: (wc == 0x3e) ? "&gt;" : "&amp;";
+			size_t entlen = strlen(ent);	/* Fits into 6 bytes */
+			memcpy(p, ent, entlen);
+			p += entlen;
+		} else if(wc < 0x80) {
 			*p++ = (char)wc;
 		} else if(wc < 0x800) {
 			*p++ = 0xc0 | ((wc >> 6));
@@ -204,7 +211,7 @@ BMPString_encode_xer(const asn_TYPE_descriptor_t *td, const void *sptr,
 	if(!st || !st->buf)
 		ASN__ENCODE_FAILED;
 
-	er.encoded = BMPString__dump(st, cb, app_key);
+	er.encoded = BMPString__dump(st, 1, cb, app_key);
 	if(er.encoded < 0) ASN__ENCODE_FAILED;
 
 	ASN__ENCODED_OK(er);
@@ -221,7 +228,7 @@ BMPString_print(const asn_TYPE_descriptor_t *td, const void *sptr, int ilevel,
 	if(!st || !st->buf)
 		return (cb("<absent>", 8, app_key) < 0) ? -1 : 0;
 
-	if(BMPString__dump(st, cb, app_key) < 0)
+	if(BMPString__dump(st, 0, cb, app_key) < 0)
 		return -1;
 
 	return 0;
